@@ -91,7 +91,12 @@ func vfGenC13(t *rapid.T) vfCaseC13 {
 			continue
 		}
 		seen[k] = true
-		code := rapid.SampledFrom(vfC13Codes).Draw(t, "code")
+		codes := vfC13Codes
+		if c.API != "ReadAt" && c.API != "Read" && c.API != "WriteTo" {
+			// for a WRITE the end-of-file status is a refusal like any other (for a READ it is an honest answer)
+			codes = append(append([]uint32{}, codes...), vfFxEOF)
+		}
+		code := rapid.SampledFrom(codes).Draw(t, "code")
 		c.Fails = append(c.Fails, vfFail{k, code})
 		_ = first
 	}
